@@ -41,7 +41,7 @@ def main():
                       'weights 1 or 1..9, custom D for latticisers, masks for partial_und; non-trivial = distinct case in which the real routine '
                       'performed at least one rewiring (eff>0 / output differs from input)')
     ck.assumptions += ['inputs have an empty diagonal and two vertex-disjoint edges (property quantifier)',
-                       'calls that hit the watchdog (rejection loops that cannot terminate) are counted as timeouts, not violations']
+                       'a call that hits the watchdog is re-run with ten times the time and a second timeout is the violation does-not-return, except randomize_graph_partial_und on a mask that overlaps the network (it may legitimately run out of admissible swaps; counted)']
     # T-gen: re-extract the literal swap kernels from /repo's current source; their obligations are gated
     # separately so that a failing generated obligation does not hide the correspondence result
     ck.cov['kernels'] = kernels.generate()
@@ -85,7 +85,21 @@ def main():
                 if pred == 'input-modified':
                     ck.violation(c['routine'], pred, {'case': c, 'status': r['status']}, cond_of(c, r))
         if r['status'] == 'timeout':
-            ck.count('timeout:' + c['routine'])
+            # every generated input holds two vertex-disjoint edges, so the edge pick ends with probability 1 and the attempt budgets bound
+            # the rest: a call that still does not return with ten times the time is a verdict.  randomize_graph_partial_und has no budget
+            # and can legitimately run out of admissible swaps when the mask overlaps the network: judged only when it cannot.
+            A_ = np.array(c['A']); judged = True
+            if c['routine'] == 'partial_und':
+                B_ = np.array(c['B'])
+                judged = bool(rc.partial_swap_feasible(A_, B_) and not np.any((A_ != 0) & ((B_ != 0) | (B_.T != 0))))
+            if judged:
+                r2 = rc.run_case(dict(c, t=10 * c.get('t', 4.0)))
+                if r2['status'] == 'timeout':
+                    ck.violation(c['routine'], 'does-not-return', {'case': c}, cond_of(c, r))
+                else:
+                    ck.count('returned-after-retry:' + c['routine'])
+            else:
+                ck.count('timeout-not-judged:' + c['routine'])
             continue
         if r['status'] == 'exc' and c['routine'] == 'randomizer_bin_und' and exc_kind(r['exc']) == 'BCTParamError':
             ck.count('rejected:no-possible-randomization'); continue   # the routine's documented domain check
